@@ -81,7 +81,13 @@ def oracle_eval(o, rc, out, err):
         if rc != 0:
             return True, "exit=%d stderr=%s" % (rc, err.decode("utf-8", "replace")[:300])
         try:
-            doc = json.loads(out.decode("utf-8"))
+            # the case is run with -S: stdout is the RAW document (plus the CLI's trailing newline),
+            # so the target-language parser is what judges it - not the CLI's JSON encoding of the
+            # returned string (an earlier version JSON-decoded first and so blamed the Python/TOML
+            # clause for a failure of the JSON escaper).
+            doc = out.decode("utf-8")
+            if doc.endswith("\n"):
+                doc = doc[:-1]
             if kind == "python_literal_equals":
                 import ast
                 got = ast.literal_eval(doc)
@@ -180,11 +186,11 @@ def _utf8_string(vals, v):
     return cases
 
 
-def _char_case(vals, src_tpl, oracle):
+def _char_case(vals, src_tpl, oracle, args=()):
     cp = u(vals, 0)
     if cp > 0x10FFFF or 0xD800 <= cp <= 0xDFFF:
         return []
-    return [{"source": src_tpl % cp, "oracle": {"oracle": oracle, "expected": chr(cp)}}]
+    return [{"source": src_tpl % cp, "args": list(args), "oracle": {"oracle": oracle, "expected": chr(cp)}}]
 
 
 @adapter("escape_json_char")
@@ -196,12 +202,12 @@ def _escape_json_char(vals, v):
 
 @adapter("escape_python_char")
 def _escape_python_char(vals, v):
-    return _char_case(vals, "std.manifestPython(std.char(%d))", "python_literal_equals")
+    return _char_case(vals, "std.manifestPython(std.char(%d))", "python_literal_equals", ("-S",))
 
 
 @adapter("escape_toml_char")
 def _escape_toml_char(vals, v):
-    return _char_case(vals, 'std.manifestTomlEx({a: std.char(%d)}, "")', "toml_value_equals")
+    return _char_case(vals, 'std.manifestTomlEx({a: std.char(%d)}, "")', "toml_value_equals", ("-S",))
 
 
 def _radix_shaped(vals, v, fn):
